@@ -107,8 +107,8 @@ DRV_VARIANT(v_ioq_hp, "intr_optimisticqueue_hp") { gc_intr_queue<cds::gc::HP, ci
 struct vy_t : public cc::vyukov_queue::traits { typedef cds::backoff::yield back_off; typedef cds::atomicity::item_counter item_counter; };
 template <size_t N> struct vy_static_t : public vy_t { typedef cds::opt::v::initialized_static_buffer<int, N> buffer; };
 template <class Q> struct VyAd : public ValAd<Q> { VyAd(Q& q) : ValAd<Q>(q) {} };
-template <class Q> static void vy_queue(const Program& P, Q& q) { ValAd<Q> ad(q); run_queue_program(P, ad, false); }
-template <class Q> static void vy_sc_queue(const Program& P, Q& q) { ValAd<Q> ad(q);
+template <class Q> static void vy_queue(const Program& P, Q& q, long cap) { xev("cap", cap); ValAd<Q> ad(q); run_queue_program(P, ad, false); }
+template <class Q> static void vy_sc_queue(const Program& P, Q& q, long cap) { xev("cap", cap); ValAd<Q> ad(q);
   auto doop = [&](const Op& o) {
     if (o.name == "front") { inv("front"); Val* p = q.front(); ret(p != nullptr, p ? p->v : 0); }
     else if (o.name == "popfront") { inv("popfront"); bool r = q.pop_front(); ret(r); }
@@ -117,19 +117,19 @@ template <class Q> static void vy_sc_queue(const Program& P, Q& q) { ValAd<Q> ad
     else if (o.name == "empty") { inv("empty"); bool r = ad.empty(); ret(r); }
     else if (o.name == "drain") { for (;;) { inv("deq"); int v = 0; bool r = ad.deq(v); ret(r, r ? v : 0); if (!r) break; } } };
   for (auto& o : P.init) doop(o); run_threads(P, doop); for (auto& o : P.fini) doop(o); }
-DRV_VARIANT(v_vy2, "vyukov_dyn2") { cc::VyukovMPMCCycleQueue<Val, vy_t> q(2); vy_queue(P, q); }
-DRV_VARIANT(v_vy4, "vyukov_dyn4") { cc::VyukovMPMCCycleQueue<Val, vy_t> q(4); vy_queue(P, q); }
-DRV_VARIANT(v_vy8, "vyukov_dyn8") { cc::VyukovMPMCCycleQueue<Val, vy_t> q(8); vy_queue(P, q); }
-DRV_VARIANT(v_vys2, "vyukov_static2") { cc::VyukovMPMCCycleQueue<Val, vy_static_t<2>> q; vy_queue(P, q); }
-DRV_VARIANT(v_vys4, "vyukov_static4") { cc::VyukovMPMCCycleQueue<Val, vy_static_t<4>> q; vy_queue(P, q); }
-DRV_VARIANT(v_vysc2, "vyukov_sc2") { cc::VyukovMPSCCycleQueue<Val, vy_t> q(2); vy_sc_queue(P, q); }
-DRV_VARIANT(v_vysc4, "vyukov_sc4") { cc::VyukovMPSCCycleQueue<Val, vy_t> q(4); vy_sc_queue(P, q); }
+DRV_VARIANT(v_vy2, "vyukov_dyn2") { cc::VyukovMPMCCycleQueue<Val, vy_t> q(2); vy_queue(P, q, 2); }
+DRV_VARIANT(v_vy4, "vyukov_dyn4") { cc::VyukovMPMCCycleQueue<Val, vy_t> q(4); vy_queue(P, q, 4); }
+DRV_VARIANT(v_vy8, "vyukov_dyn8") { cc::VyukovMPMCCycleQueue<Val, vy_t> q(8); vy_queue(P, q, 8); }
+DRV_VARIANT(v_vys2, "vyukov_static2") { cc::VyukovMPMCCycleQueue<Val, vy_static_t<2>> q; vy_queue(P, q, 2); }
+DRV_VARIANT(v_vys4, "vyukov_static4") { cc::VyukovMPMCCycleQueue<Val, vy_static_t<4>> q; vy_queue(P, q, 4); }
+DRV_VARIANT(v_vysc2, "vyukov_sc2") { cc::VyukovMPSCCycleQueue<Val, vy_t> q(2); vy_sc_queue(P, q, 2); }
+DRV_VARIANT(v_vysc4, "vyukov_sc4") { cc::VyukovMPSCCycleQueue<Val, vy_t> q(4); vy_sc_queue(P, q, 4); }
 // intrusive Vyukov: stores pointers
 struct ivy_item { int v; };
 struct ivy_t : public ci::vyukov_queue::traits { typedef cds::backoff::yield back_off; typedef cds::atomicity::item_counter item_counter; };
 template <class Q> struct IvyAd { Q& q; std::vector<ivy_item*>& ar; IvyAd(Q& q_, std::vector<ivy_item*>& a) : q(q_), ar(a) {}
   bool enq(int v) { ivy_item* p = new ivy_item{v}; ar.push_back(p); return q.enqueue(*p); }
   bool deq(int& v) { ivy_item* p = q.dequeue(); if (!p) return false; v = p->v; return true; } bool empty() { return q.empty(); } size_t size() { return q.size(); } };
-template <size_t N> static void ivy_queue(const Program& P) { typedef ci::VyukovMPMCCycleQueue<ivy_item, ivy_t> Q; std::vector<ivy_item*> ar; { Q q(N); IvyAd<Q> ad(q, ar); run_queue_program(P, ad, false); } for (auto p : ar) delete p; }
+template <size_t N> static void ivy_queue(const Program& P) { typedef ci::VyukovMPMCCycleQueue<ivy_item, ivy_t> Q; std::vector<ivy_item*> ar; { Q q(N); xev("cap", (long)N); IvyAd<Q> ad(q, ar); run_queue_program(P, ad, false); } for (auto p : ar) delete p; }
 DRV_VARIANT(v_ivy2, "intr_vyukov2") { ivy_queue<2>(P); }
 DRV_VARIANT(v_ivy4, "intr_vyukov4") { ivy_queue<4>(P); }
